@@ -227,7 +227,7 @@ prop("C16", "TestC16", q, t,
      level_note="Go's map iteration order is randomised per range statement, so repeated encodings inside one case already sample different orders; rebuilt copies add different hash layouts. XML *WriterRaw forms are commented out in the library and not claimed.",
      design_ref="DESIGN.md section 4, C16")
 
-q, t = tiers(40, 400, t_ceiling_s=3300)
+q, t = tiers(100, 3000, t_ceiling_s=3300)
 prop("C17", "TestC17", q, t,
      rule="a shared Map (decoded document or shape-first JSON value) and MapSeq, 2-8 goroutines each with a generated list of 5-30 operations out of 30 kinds (every read-only query and encoder on the shared values, Copy, gob, NewMap, "
           "private decode/encode), Gosched every 1-4 operations, GOMAXPROCS in {2,4,16}; the same plans are first run sequentially, checking after every operation that the receiver equals its deep copy. "
